@@ -1,7 +1,7 @@
 SPECIFICATION Spec
 CONSTANTS
   Stacks <- StacksAll
-  Outcomes <- Out13
+  Outcomes <- Out20
   TagOps <- TagOpsAll
   Times = {"1", "2"}
   MaxCalls = 24
